@@ -180,3 +180,30 @@ package keeper
 //@ ensures [found_is_the_index_th_in_time_order] err == nil ==> aggregate != nil && iterk(0) == index && unixms(timestamp) == iterkey(0, index) && stored(queryId, iterkey(0, index)) && deref(aggregate) == agg_at(queryId, iterkey(0, index))
 //@ ensures [error_only_when_fewer_aggregates] err != nil ==> !iterstopped(0) && iterk(0) <= index
 //@ iter 0 invariant [counting_visited] currentIndex == $k && aggregate == nil && $k <= index
+
+// ---- writers of the aggregate history (C08) ----
+
+//@ func (k Keeper).SetAggregate(ctx, report) (err)
+//@ requires [report_present] report != nil
+//@ requires [block_time_not_before_1970] unixms(blocktime(ctx)) >= 0
+//@ requires [sequence_number_below_2_64] get0(oracle.Nonces, bytes(report.QueryId)) < 18446744073709551615
+//@ modifies oracle.Nonces, oracle.Aggregates, H_*
+//@ ensures [sequence_number_increases_by_one] err == nil ==> oracle.Nonces[bytes(report.QueryId)] == get0(old(oracle.Nonces), bytes(report.QueryId)) + 1 && report.Index == get0(old(oracle.Nonces), bytes(report.QueryId)) + 1
+//@ ensures [stored_under_query_and_block_time] err == nil ==> stored(bytes(report.QueryId), unixms(blocktime(ctx)))
+//@ ensures [stored_value_is_the_report] err == nil ==> agg_at(bytes(report.QueryId), unixms(blocktime(ctx))) == deref(report)
+//@ ensures [records_block_height] err == nil ==> report.Height == blockheight(ctx)
+//@ ensures [no_other_aggregate_touched] forall q bytes :: forall t int :: q != bytes(report.QueryId) || t != unixms(blocktime(ctx)) ==> (stored(q, t) <==> old(stored(q, t))) && agg_at(q, t) == old(agg_at(q, t))
+//@ ensures [other_sequence_numbers_kept] forall q bytes :: q != bytes(report.QueryId) ==> (has(oracle.Nonces, q) <==> old(has(oracle.Nonces, q))) && oracle.Nonces[q] == old(oracle.Nonces[q])
+
+//@ func (k Keeper).FlagAggregateReport(ctx, report) (err)
+//@ requires [stored_aggregates_name_their_median_reporter] forall q bytes :: forall t int :: stored(q, t) ==> agg_at(q, t).AggregateReportIndex < len(agg_at(q, t).Reporters) && agg_at(q, t).Reporters[agg_at(q, t).AggregateReportIndex] != nil && bech32ok(agg_at(q, t).Reporters[agg_at(q, t).AggregateReportIndex].Reporter)
+//@ requires [disputed_reporter_is_an_address] bech32ok(report.Reporter)
+//@ modifies oracle.Aggregates
+//@ ensures [history_is_append_only] forall q bytes :: forall t int :: stored(q, t) <==> old(stored(q, t))
+//@ define changed(q, t) = agg_at(q, t) != old(agg_at(q, t))
+//@ ensures [only_aggregates_of_the_disputed_query_change] forall q bytes :: forall t int :: changed(q, t) ==> q == bytes(report.QueryId) && old(stored(q, t))
+//@ ensures [only_aggregates_of_the_disputed_block_change] forall q bytes :: forall t int :: changed(q, t) ==> old(agg_at(q, t)).MicroHeight == report.BlockNumber
+//@ ensures [only_aggregates_decided_by_the_disputed_reporter_change] forall q bytes :: forall t int :: changed(q, t) ==> old(agg_at(q, t)).Reporters[old(agg_at(q, t)).AggregateReportIndex].Reporter == report.Reporter
+//@ ensures [a_changed_aggregate_is_flagged_and_otherwise_the_same] forall q bytes :: forall t int :: changed(q, t) ==> agg_at(q, t).Flagged && agg_at(q, t).AggregateValue == old(agg_at(q, t)).AggregateValue && agg_at(q, t).AggregateReporter == old(agg_at(q, t)).AggregateReporter && agg_at(q, t).Index == old(agg_at(q, t)).Index && agg_at(q, t).ReporterPower == old(agg_at(q, t)).ReporterPower && agg_at(q, t).Height == old(agg_at(q, t)).Height && agg_at(q, t).MicroHeight == old(agg_at(q, t)).MicroHeight && agg_at(q, t).Reporters == old(agg_at(q, t)).Reporters
+//@ loop 0 "for ; iter.Valid(); iter.Next()"
+//@ loop 0 invariant [nothing_changed_while_searching] nothing_written()
